@@ -39,6 +39,9 @@ Fixpoint footrule_from (o2 : list N) (j : nat) (o1 : list N) : nat :=
   | x :: xs => absdiff j (idx o2 x) + footrule_from o2 (S j) xs
   end.
 
+(* Out of the property's domain (fewer than two alternatives) both denominators are 0: the code then
+   returns nan (footrule, numpy division) or raises ZeroDivisionError (sertel); the model returns the
+   pair with denominator 0 and the harness never sends equal-length rankings of length < 2. *)
 Definition footrule_num (o1 o2 : list N) : nat := footrule_from o2 0 o1.
 Definition footrule_den (o1 : list N) : nat := (length o1 * length o1) / 2.
 
